@@ -1,11 +1,11 @@
 SPECIFICATION Spec
 CONSTANTS DocIds = {"d1"}
- SecIds = {"s1","s2","s3"}
- PropIds = {"p1"}
- PoolIds = {"n1"}
- OtherIds = {"j1"}
- Names = {"a","b"}
- IdNames = FALSE
+ SecIds = {"s1","s2"}
+ PropIds = {"p1","p2"}
+ PoolIds = {}
+ OtherIds = {}
+ Names = {"a"}
+ IdNames = TRUE
 INVARIANT InvWF
 INVARIANT InvUniqueSib
 INVARIANT InvNamesOK
